@@ -36,6 +36,7 @@ const (
 	tagChain   = "chain"  // inside; content loads sub/ldr.lisp which performs the load under test
 	tagLink    = "link"   // inside; content performs the next load of a chain with the primitive the case prescribes for that level
 	tagHist    = "hist"   // inside; content performs up to three loads in a row, each with its errors ignored
+	// tagMulti (oneform.go): inside; content performs 2..3 loads from ONE form, the form the case names
 )
 
 // theLayout is the layout of DESIGN §C20 with these additions: every
@@ -51,15 +52,18 @@ var theLayout = []layoutEnt{
 	{"root/chain.lisp", kFile, tagChain},
 	{"root/hist.lisp", kFile, tagHist},
 	{"root/link.lisp", kFile, tagLink},
+	{"root/multi.lisp", kFile, tagMulti},
 	{"root/sub", kDir, ""},
 	{"root/sub/in.lisp", kFile, tagInside},
 	{"root/sub/ldr.lisp", kFile, tagLoader},
 	{"root/sub/hist.lisp", kFile, tagHist},
 	{"root/sub/link.lisp", kFile, tagLink},
+	{"root/sub/multi.lisp", kFile, tagMulti},
 	{"root/sub/deep", kDir, ""},
 	{"root/sub/deep/in.lisp", kFile, tagInside},
 	{"root/sub/deep/ldr.lisp", kFile, tagLoader},
 	{"root/sub/deep/link.lisp", kFile, tagLink},
+	{"root/sub/deep/multi.lisp", kFile, tagMulti},
 	{"root/sub/up", kLink, ".."},
 	{"root/lnk_in", kLink, "in.lisp"},
 	{"root/lnk_out", kLink, "../outside/secret.lisp"},
@@ -117,6 +121,8 @@ func fileContent(e layoutEnt) string {
 		return m + "(load-file \"sub/ldr.lisp\")\n"
 	case tagLink:
 		return m + "(if (" + symChainLisp + ") (load-file (" + symChainLoc + ")) (" + symChainGo + "))\n"
+	case tagMulti:
+		return m + multiContent()
 	case tagHist:
 		for i := 0; i < 3; i++ {
 			m += "(ignore-errors (load-file (" + symHLoc + " " + string(rune('0'+i)) + ")))\n"
